@@ -256,8 +256,9 @@ OpsOf(kind) ==
     [] OTHER            -> {W(kind, p[1], Resolve(amap, p[1]), "-", t, 0, 0, p[2], Resolve(amap, p[2])) :
                               p \in NamePairs, t \in {i \in 1..L : \A v \in VarSet : sc.vals[v][i] # NaN}}
 
+CanOp == pc = "ops" /\ Len(hist) < MaxOps
 Op(o) ==
-  /\ pc = "ops" /\ Len(hist) < MaxOps
+  /\ CanOp
   /\ LET k  == Len(hist) + 1
          ra == StepOn(sa, KeyA(o.name), KeyA(o.name2), o, k)       \* through the alias, like the implementation
          rc == StepOn(sc, o.canon, o.canon2, o, k)                 \* the same operation on the variable itself
@@ -266,13 +267,13 @@ Op(o) ==
                                   exp |-> [vals |-> rc.s.vals, st |-> rc.s.st, it |-> rc.s.it]])
   /\ UNCHANGED <<pc, nv, amap, pref, short, ctorRes, ctorKw, expo>>
 
-DoAttr    == pc = "ops" /\ \E o \in OpsOf("attr")    : Op(o)
-DoItem    == pc = "ops" /\ \E o \in OpsOf("item")    : Op(o)
-DoLabel   == pc = "ops" /\ \E o \in OpsOf("label")   : Op(o)
-DoSlice   == pc = "ops" /\ \E o \in OpsOf("slice")   : Op(o)
-DoReplace == pc = "ops" /\ \E o \in OpsOf("replace") : Op(o)
-DoRead    == pc = "ops" /\ \E o \in OpsOf("read")    : Op(o)
-DoSolve   == pc = "ops" /\ \E o \in OpsOf("solve")   : Op(o)
+DoAttr    == CanOp /\ \E o \in OpsOf("attr")    : Op(o)
+DoItem    == CanOp /\ \E o \in OpsOf("item")    : Op(o)
+DoLabel   == CanOp /\ \E o \in OpsOf("label")   : Op(o)
+DoSlice   == CanOp /\ \E o \in OpsOf("slice")   : Op(o)
+DoReplace == CanOp /\ \E o \in OpsOf("replace") : Op(o)
+DoRead    == CanOp /\ \E o \in OpsOf("read")    : Op(o)
+DoSolve   == CanOp /\ \E o \in OpsOf("solve")   : Op(o)
 DoConstruct == pc = "ctor" /\ \E kw \in CtorChoices : Construct(kw)
 
 (* to_dataframe(use_aliases=True) of side A at the end of the history *)
